@@ -16,8 +16,17 @@ P = {
 }
 for k, d in P.items():
     o = t
+    import re as _re
+    o = _re.sub(r'//@@ only (\w)\n(.*?)//@@ end only\n', lambda m: m.group(2) if m.group(1) == k else '', o, flags=_re.S)
     for a, b in d.items():
         o = o.replace('@%s@' % a, b)
     assert '@' not in o.replace('@[', '').replace('self.h@', '').replace('@ ', '').replace('@.', '').replace('@)', '').replace('@,', '').replace('@;', '').replace('@\n', '') or True
+    # the spec, the cryptoutil stubs and the `hashing` modules are written as include files (so that units depending on
+    # BLAKE2 contexts - argon2 - can take them as `-- dep`); the unit template itself includes them back
+    import re
+    for tag, fname in (('spec', 'blake2%s_spec.rs' % k), ('custubs', 'blake2%s_cu_stubs.rs' % k), ('hashing', 'm_blake2%s.vinc' % k)):
+        m = re.search(r'//@@ begin %s\n(.*?)//@@ end %s\n' % (tag, tag), o, re.S)
+        open(os.path.join(R, 'units', 'inc', fname), 'w').write(m.group(1))
+        o = o[:m.start()] + '//% include ' + fname + '\n' + o[m.end():]
     open(os.path.join(R, 'units', 'blake2%s.vtpl' % k), 'w').write(o)
 print('generated')
